@@ -83,6 +83,10 @@ func factsMuxLocks() {
 	// the operations an application goroutine, a deplex goroutine or a timer runs
 	entries := []string{"Stream.Write", "Stream.ReadFrom", "Stream.Close", "Stream.Read", "Session.OpenStream", "Session.Accept",
 		"Session.Close", "Session.checkTimeout", "Session.AddConnection", "switchboard.deplex"}
+	// the session's refusal teller (a goroutine of its own), when the tree has one
+	if fnOf(mx, "Session.tellRefusals") != nil {
+		entries = append(entries, "Session.tellRefusals")
+	}
 	// There are over a thousand distinct paths (error paths nest deeply), too many to hand to Lean as literals.
 	// Rank-orderedness of a path depends only on its ACQUISITION CONTEXTS — for every acquisition, the stack of locks
 	// held at that moment — and on its being well bracketed (Lean: C12L.ok_iff_ctx). Emit the distinct contexts.
